@@ -1,6 +1,6 @@
 # C08: LZ10 compression emits a valid stream that expands to the input.
 from lzcommon import (LZCheckMixin, PropertyCheck, Case, Bad, compress_inputs, parse_compress_out, parse_hex, hexb,
-                      strict_parse, expand, shrink_bytes, shrink_ptok)
+                      strict_parse, expand, shrink_bytes, shrink_ptok, case_data_token)
 
 
 class C08(LZCheckMixin, PropertyCheck):
@@ -11,7 +11,7 @@ class C08(LZCheckMixin, PropertyCheck):
             "long runs around 4096; structured random inputs (runs, periods around the window edge, Thue-Morse, Fibonacci, incompressible, "
             "length-form boundaries, blocks repeated at distance 4093..4099, self-copying, near-periodic) <= 6 KiB against the extracted model "
             "and larger ones (quick <= 64 KiB, thorough <= 1 MiB; repeats of 65536..140000 bytes) against the oracle only; a slice of the family through "
-            "the enum CompressionFormat; the 16 MiB boundary: 2^24-1 and 2^24-2 bytes (compact P<len>:<pattern> inputs, implementation + oracle). Non-trivial = the emitted stream contains a "
+            "the enum CompressionFormat; pairs of same-length inputs with equal FxHash64 compressed one after the other (kind lz10p: prelude + input); the 16 MiB boundary: 2^24-1 and 2^24-2 bytes (compact P<len>:<pattern> inputs, implementation + oracle). Non-trivial = the emitted stream contains a "
             "back-reference; distinct = distinct input.")
     assumptions = ["A-std: Vec, slices and integer casts behave as documented",
                    "machine-level model (C08_compress_succeeds): out_buffer's filled prefix as a list, i32 token-byte expressions without overflow checks (values <= 0x1000)"]
@@ -30,7 +30,7 @@ class C08(LZCheckMixin, PropertyCheck):
         return any(not isinstance(t, int) for t in toks)
 
     def oracle(self, case, impl_out, profile):
-        data = parse_hex(case.line.split(" ")[2])
+        data = parse_hex(case_data_token(case.line))
         cat, c, rt = parse_compress_out(impl_out)
         if len(data) >= 1 << 24:
             # outside the property's first sentence; F21: the 24-bit size field cannot store the length, so the only
@@ -54,6 +54,8 @@ class C08(LZCheckMixin, PropertyCheck):
 
     def shrink_candidates(self, case):
         parts = case.line.split(" ")
+        if len(parts) > 3:
+            return                  # prelude + input (collision siblings): the pair is the case, not shrunk
         if parts[2][0] == "P" or "+" in parts[2]:
             for t in shrink_ptok(parts[2]):
                 yield Case("%s 0 %s" % (parts[0], t), case.stream)
